@@ -24,6 +24,8 @@ pub struct IndexCfg {
   pub savepoint_interval: Option<usize>,
   pub max_savepoints: Option<usize>,
   pub integration_test: bool,
+  /// override of the first inscription height (thread-local knob hook); forces the node-fetch path
+  pub first_inscription_height: Option<u32>,
 }
 
 impl IndexCfg {
@@ -39,6 +41,7 @@ impl IndexCfg {
       savepoint_interval: None,
       max_savepoints: None,
       integration_test: false,
+      first_inscription_height: None,
     }
   }
 
@@ -55,7 +58,10 @@ impl IndexCfg {
         Some(c) => format!("+ci{c}"),
         None => String::new(),
       }
-    )
+    ) + &match self.first_inscription_height {
+      Some(h) => format!("+fih{h}"),
+      None => String::new(),
+    } + if self.integration_test { "+it" } else { "" }
   }
 
   pub fn args(&self, world: &World, dir: &Path) -> Vec<String> {
@@ -124,6 +130,8 @@ impl IndexCfg {
 }
 
 pub fn open(world: &World, dir: &Path, cfg: &IndexCfg) -> anyhow::Result<Index> {
+  // thread-local knob: stays in force for later update() calls on this thread until the next open()
+  ord::index::verif::knobs::set_first_inscription_height(cfg.first_inscription_height);
   let settings = cfg.settings(world, dir)?;
   Index::open(&settings)
 }
@@ -134,6 +142,7 @@ pub fn open_with_events(
   cfg: &IndexCfg,
   sender: tokio::sync::mpsc::Sender<ord::index::event::Event>,
 ) -> anyhow::Result<Index> {
+  ord::index::verif::knobs::set_first_inscription_height(cfg.first_inscription_height);
   let settings = cfg.settings(world, dir)?;
   Index::open_with_event_sender(&settings, Some(sender))
 }
